@@ -5,6 +5,7 @@ import (
 	"fmt"
 	"strings"
 	"time"
+	"unsafe"
 
 	"github.com/basecomplextech/baselibrary/async"
 	"github.com/basecomplextech/baselibrary/logging"
@@ -304,29 +305,66 @@ func (l *recLogger) add(level, msg string, st status.Status, kv []any) {
 
 // ---------------------------------------------------------------- helpers
 
+// Harness tasks are serialised by the simulator's baton, which is hidden from the race detector
+// on purpose. What one harness task does before it waits and what another does after it resumes
+// is ordered by the test program itself, so every harness-level wait is a release/acquire pair on
+// one variable (no-ops without -race). Waits inside library calls (simnet) are not.
+var harnessSync byte
+
+func hbRelease() { simrt.RaceRelease(unsafe.Pointer(&harnessSync)) }
+func hbAcquire() { simrt.RaceAcquire(unsafe.Pointer(&harnessSync)) }
+
+func hSleep(d time.Duration) { hbRelease(); simrt.Sleep(d); hbAcquire() }
+func hWaitCond(site string, pred func() bool) {
+	hbRelease()
+	simrt.WaitCond(site, pred)
+	hbAcquire()
+}
+func hWaitCondUntil(site string, pred func() bool, dl time.Time) bool {
+	hbRelease()
+	ok := simrt.WaitCondUntil(site, pred, dl)
+	hbAcquire()
+	return ok
+}
+func hWaitQuiescent(site string) { hbRelease(); simrt.WaitQuiescent(site); hbAcquire() }
+func hYield(site string)         { hbRelease(); simrt.ForceYield(site); hbAcquire() }
+func hGo(name string, fn func()) {
+	hbRelease()
+	simrt.Go(name, func() {
+		hbAcquire()
+		defer hbRelease()
+		fn()
+	})
+}
+
 // group joins harness tasks.
 type group struct{ n int }
 
 func (g *group) goTask(name string, fn func()) {
 	g.n++
-	simrt.Go(name, func() {
+	hGo(name, func() {
 		defer func() { g.n-- }()
 		fn()
 	})
 }
 
 func (g *group) wait(site string) {
-	simrt.WaitCond(site, func() bool { return g.n == 0 })
+	hWaitCond(site, func() bool { return g.n == 0 })
 }
 
 // waitFlag blocks until the flag is set.
 func waitFlag(f async.Flag) {
+	hbRelease()
 	simrt.Select(0, f.Wait())
+	hbAcquire()
 }
 
 // waitFlagFor waits up to d of simulated time for the flag.
 func waitFlagFor(f async.Flag, d time.Duration) bool {
-	return simrt.Select(0, f.Wait(), time.After(d)) == 0
+	hbRelease()
+	ok := simrt.Select(0, f.Wait(), time.After(d)) == 0
+	hbAcquire()
+	return ok
 }
 
 func stName(st status.Status) string {
